@@ -373,6 +373,9 @@ class GameCoordinator:
                     self.logger.error(
                         f"Error when converting msg to Action using Action.from_json():{e}, {message}"
                     )
+                    # the message can't be processed - inform the sender and wait for the next message
+                    await self._respond_bad_request(agent_addr, "Message could not be converted to an Action.")
+                    continue
                 match action.type:  # process action based on its type
                     case ActionType.JoinGame:
                         self.logger.debug(f"Start processing of ActionType.JoinGame by {agent_addr}")
@@ -384,13 +387,26 @@ class GameCoordinator:
                     case ActionType.ResetGame:
                         self.logger.debug(f"Start processing of ActionType.ResetGame by {agent_addr}")
                         self._spawn_task(self._process_reset_game_action, agent_addr, action)
-                    case ActionType.ExfiltrateData | ActionType.FindData | ActionType.ScanNetwork | ActionType.FindServices | ActionType.ExploitService:
+                    case ActionType.ExfiltrateData | ActionType.FindData | ActionType.ScanNetwork | ActionType.FindServices | ActionType.ExploitService | ActionType.BlockIP:
                         self.logger.debug(f"Start processing of {action.type} by {agent_addr}")
                         self._spawn_task(self._process_game_action, agent_addr, action)
                     case _:
                         self.logger.warning(f"Unsupported action type: {action}!")
+                        await self._respond_bad_request(agent_addr, f"Unsupported action type: {action.type}")
         self.logger.info("\tAction processing task stopped.")
             
+    async def _respond_bad_request(self, agent_addr: tuple, reason: str)->None:
+        """
+        Answers a message which can't be processed with GameStatus.BAD_REQUEST.
+        """
+        output_message_dict = {
+            "to_agent": agent_addr,
+            "status": str(GameStatus.BAD_REQUEST),
+            "message": reason,
+        }
+        if agent_addr in self._agent_response_queues:
+            await self._agent_response_queues[agent_addr].put(self.convert_msg_dict_to_json(output_message_dict))
+
     async def _process_join_game_action(self, agent_addr: tuple, action: Action)->None:
         """
         Method for processing Action of type ActionType.JoinGame
